@@ -33,7 +33,7 @@ fn n_grid_c() -> u64 {
 
 // mixed batches: dead IDs in front of live ones, duplicates, same-deadline modification
 fn n_grid_d() -> u64 {
-    12
+    14
 }
 
 fn grid(_p: &EpParams) -> u64 {
@@ -427,7 +427,7 @@ async fn grid_c(p: &EpParams, case: u64) -> EpReport {
 /// accepted request must be treated as if it had been sent alone.
 async fn grid_d(p: &EpParams, case: u64) -> EpReport {
     let mut rep = EpReport::default();
-    let stream = matches!(case, 2 | 3 | 8);
+    let stream = matches!(case, 2 | 3 | 8 | 12 | 13);
     let mut su = setup(p, stream).await;
     if su.ids.len() != 2 {
         rep.inconclusive("setup did not hand out two messages");
@@ -486,6 +486,15 @@ async fn grid_d(p: &EpParams, case: u64) -> EpReport {
         7 => {
             label = "ack [unknown, a1, a2]";
             su.seq.ack(&s, &[unknown.clone(), a1.clone(), a2.clone()]).await;
+        }
+        12 => {
+            // per-ID seconds with the nack FIRST: the later IDs keep their own values
+            label = "stream [a1, a2] secs [0, 30]";
+            do_modify(&mut su, "stream", &[a1.clone(), a2.clone()], &[0, 30]).await;
+        }
+        13 => {
+            label = "stream [a1, a2] secs [30, 0]";
+            do_modify(&mut su, "stream", &[a1.clone(), a2.clone()], &[30, 0]).await;
         }
         10 => {
             label = "ack [a1, a1, a2] (duplicate)";
